@@ -12,13 +12,14 @@ import (
 )
 
 // C16 (semantic layer): re-reads the Go source and emits, as terms of the small languages of Model/C16Syntax.lean,
-//   * every method of an in-repo type whose request carries an `Authority` field, statement by statement (guard
+//   - every method of an in-repo type whose request carries an `Authority` field, statement by statement (guard
 //     EXPRESSIONS: which two values are compared and how; helper methods followed one level);
-//   * the router dispatch: Msg services (methods of the generated MsgServer interfaces), RegisterMsgServer call sites with
+//   - the router dispatch: Msg services (methods of the generated MsgServer interfaces), RegisterMsgServer call sites with
 //     the concrete type registered, struct types with their embedded fields (for method promotion), the crosschain
 //     per-chain routes;
-//   * what ValidateBasic of each authority message does with the authority;
-//   * the raw-store-update loop(s) of MsgUpdateStore, step by step in source order.
+//   - what ValidateBasic of each authority message does with the authority;
+//   - the raw-store-update loop(s) of MsgUpdateStore, step by step in source order.
+//
 // Anything that is not recognised is emitted as `.other` / `.work`, so that a theorem, not the translator, breaks.
 func init() { register(extractC16Sem) }
 
@@ -205,6 +206,181 @@ type c16fn struct {
 	req      string
 	params   map[string]int
 	inHelper bool
+	// round 4: locals that hold the bytes some decoder made of a string operand (name -> decoder, operand), the error
+	// variable of such a decoding (name -> decoder, operand), and string locals standing for a recognised expression
+	locals  map[string][2]string
+	errOf   map[string][2]string
+	slocals map[string]string
+}
+
+// c16Decoders: functions that turn an address string into bytes, by selector name -> Dec constructor of Model/C16Syntax.lean
+var c16Decoders = map[string]string{"AccAddressFromBech32": ".acc", "MustAccAddressFromBech32": ".acc", "ParseAddress": ".lenient"}
+
+// decodeDef: `v, err := sdk.AccAddressFromBech32(S)` / `v, _, err := fxtypes.ParseAddress(S)` / `v := sdk.MustAcc…(S)`:
+// records v (and err) and returns true.
+func (x *c16x) decodeDef(fc *c16fn, as *ast.AssignStmt) bool {
+	if len(as.Rhs) != 1 || len(as.Lhs) < 1 || len(as.Lhs) > 3 {
+		return false
+	}
+	call, ok := as.Rhs[0].(*ast.CallExpr)
+	if !ok || len(call.Args) != 1 {
+		return false
+	}
+	se, ok := call.Fun.(*ast.SelectorExpr)
+	if !ok {
+		return false
+	}
+	dec, ok := c16Decoders[se.Sel.Name]
+	if !ok {
+		return false
+	}
+	op := x.sexpr(fc, call.Args[0])
+	if strings.HasPrefix(op, ".other") {
+		return false
+	}
+	if fc.locals == nil {
+		fc.locals, fc.errOf = map[string][2]string{}, map[string][2]string{}
+	}
+	for i, l := range as.Lhs {
+		id, ok := l.(*ast.Ident)
+		if !ok {
+			return false
+		}
+		if id.Name == "_" {
+			continue
+		}
+		if i == 0 {
+			fc.locals[id.Name] = [2]string{dec, op}
+		} else if i == len(as.Lhs)-1 {
+			fc.errOf[id.Name] = [2]string{dec, op}
+		}
+	}
+	return true
+}
+
+// bytesOperand: the decoder and the string operand behind an expression that holds address BYTES.
+func (x *c16x) bytesOperand(fc *c16fn, e ast.Expr) (dec, op string) {
+	if p, ok := e.(*ast.ParenExpr); ok {
+		return x.bytesOperand(fc, p.X)
+	}
+	if id, ok := e.(*ast.Ident); ok {
+		if l, ok := fc.locals[id.Name]; ok {
+			return l[0], l[1]
+		}
+	}
+	if call, ok := e.(*ast.CallExpr); ok && len(call.Args) == 1 {
+		if se, ok := call.Fun.(*ast.SelectorExpr); ok {
+			switch se.Sel.Name {
+			case "BytesToAddress": // common.BytesToAddress: the last 20 bytes
+				if d, o := x.bytesOperand(fc, call.Args[0]); d == ".acc" {
+					return ".evm20", o
+				}
+				return "?", x.sexpr(fc, e)
+			case "Bytes":
+			}
+			if d, ok := c16Decoders[se.Sel.Name]; ok {
+				return d, x.sexpr(fc, call.Args[0])
+			}
+		}
+	}
+	if call, ok := e.(*ast.CallExpr); ok && len(call.Args) == 0 {
+		if se, ok := call.Fun.(*ast.SelectorExpr); ok && se.Sel.Name == "Bytes" {
+			return x.bytesOperand(fc, se.X)
+		}
+	}
+	return ".acc", x.sexpr(fc, e)
+}
+
+func (x *c16x) decCmp(fc *c16fn, a, b ast.Expr, whole ast.Node) string {
+	da, oa := x.bytesOperand(fc, a)
+	db, ob := x.bytesOperand(fc, b)
+	if da != db || da == "?" {
+		return x.bother(whole)
+	}
+	if da == ".acc" {
+		return ".addrEq " + par(oa) + " " + par(ob)
+	}
+	return ".decEq " + da + " " + par(oa) + " " + par(ob)
+}
+
+func isCallTo(e ast.Expr, name string) bool {
+	if p, ok := e.(*ast.ParenExpr); ok {
+		return isCallTo(p.X, name)
+	}
+	call, ok := e.(*ast.CallExpr)
+	if !ok {
+		return false
+	}
+	se, ok := call.Fun.(*ast.SelectorExpr)
+	return ok && se.Sel.Name == name
+}
+
+// constStr: the value of a string constant expression (a literal, or <alias>.<Name> declared in a package that can be read).
+func (x *c16x) constStr(fc *c16fn, e ast.Expr) string {
+	switch t := e.(type) {
+	case *ast.BasicLit:
+		if t.Kind == token.STRING {
+			return strings.Trim(t.Value, "\"`")
+		}
+	case *ast.SelectorExpr:
+		id, ok := t.X.(*ast.Ident)
+		if !ok {
+			break
+		}
+		ip := imports(fc.file)[id.Name]
+		if !strings.HasPrefix(ip, x.modPrefix()) {
+			break
+		}
+		rel := strings.TrimPrefix(ip, x.modPrefix())
+		for _, f := range x.c.pkg(rel) {
+			for _, d := range f.Decls {
+				gd, ok := d.(*ast.GenDecl)
+				if !ok || gd.Tok != token.CONST {
+					continue
+				}
+				for _, sp := range gd.Specs {
+					vs := sp.(*ast.ValueSpec)
+					for i, n := range vs.Names {
+						if n.Name == t.Sel.Name && i < len(vs.Values) {
+							if bl, ok := vs.Values[i].(*ast.BasicLit); ok && bl.Kind == token.STRING {
+								return strings.Trim(bl.Value, "\"`")
+							}
+						}
+					}
+				}
+			}
+		}
+	}
+	return ""
+}
+
+// moduleAccountFetch: e is `<recv…>.GetModuleAccount(ctx, NAME)` or a call of a receiver-rooted one-line getter whose body
+// is `return <…>.GetModuleAccount(ctx, NAME)`; returns the module name ("" when not recognised).
+func (x *c16x) moduleAccountFetch(fc *c16fn, e ast.Expr, depth int) string {
+	call, ok := e.(*ast.CallExpr)
+	if !ok || depth > 2 {
+		return ""
+	}
+	se, ok := call.Fun.(*ast.SelectorExpr)
+	if !ok {
+		return ""
+	}
+	bt, rooted := x.rootedAtRecv(fc, se.X)
+	if !rooted {
+		return ""
+	}
+	if se.Sel.Name == "GetModuleAccount" && len(call.Args) == 2 {
+		return x.constStr(fc, call.Args[1])
+	}
+	fd, _ := x.resolveMethod(bt, se.Sel.Name)
+	if fd == nil || fd.Body == nil || len(fd.Body.List) != 1 {
+		return ""
+	}
+	r, ok := fd.Body.List[0].(*ast.ReturnStmt)
+	if !ok || len(r.Results) != 1 {
+		return ""
+	}
+	return x.moduleAccountFetch(x.fnCtx(fd, ""), r.Results[0], depth+1)
 }
 
 func (x *c16x) fnCtx(fd *ast.FuncDecl, req string) *c16fn {
@@ -248,6 +424,9 @@ func (x *c16x) sexpr(fc *c16fn, e ast.Expr) string {
 	case *ast.Ident:
 		if i, ok := fc.params[t.Name]; ok {
 			return fmt.Sprintf(".param %d", i)
+		}
+		if sl, ok := fc.slocals[t.Name]; ok {
+			return sl
 		}
 	case *ast.SelectorExpr:
 		if id, ok := t.X.(*ast.Ident); ok && id.Name == fc.req && fc.req != "" {
@@ -326,6 +505,24 @@ func (x *c16x) bexpr(fc *c16fn, e ast.Expr) string {
 	case *ast.BinaryExpr:
 		switch t.Op {
 		case token.NEQ, token.EQL:
+			// `err != nil` where err is the error of a recognised address decoding
+			if id, ok := t.X.(*ast.Ident); ok && isNil(t.Y) {
+				if d, ok := fc.errOf[id.Name]; ok {
+					ok := ".decodes " + d[0] + " " + par(d[1])
+					if t.Op == token.NEQ {
+						return ".not " + par(ok)
+					}
+					return ok
+				}
+			}
+			// comparison of [20]byte values made by common.BytesToAddress
+			if isCallTo(t.X, "BytesToAddress") || isCallTo(t.Y, "BytesToAddress") {
+				cmp := x.decCmp(fc, t.X, t.Y, e)
+				if t.Op == token.NEQ && !strings.HasPrefix(cmp, ".other") {
+					return ".not " + par(cmp)
+				}
+				return cmp
+			}
 			a, b := x.sexpr(fc, t.X), x.sexpr(fc, t.Y)
 			// only string comparisons: at least one side must be a recognised string operand
 			if strings.HasPrefix(a, ".other") && strings.HasPrefix(b, ".other") {
@@ -347,11 +544,11 @@ func (x *c16x) bexpr(fc *c16fn, e ast.Expr) string {
 			return ".equalFold " + par(x.sexpr(fc, t.Args[0])) + " " + par(x.sexpr(fc, t.Args[1]))
 		}
 		if fs == "bytes.Equal" && len(t.Args) == 2 {
-			return ".addrEq " + par(x.sexpr(fc, t.Args[0])) + " " + par(x.sexpr(fc, t.Args[1]))
+			return x.decCmp(fc, t.Args[0], t.Args[1], e)
 		}
 		if se, ok := t.Fun.(*ast.SelectorExpr); ok {
 			if se.Sel.Name == "Equals" && len(t.Args) == 1 {
-				return ".addrEq " + par(x.sexpr(fc, se.X)) + " " + par(x.sexpr(fc, t.Args[0]))
+				return x.decCmp(fc, se.X, t.Args[0], e)
 			}
 			// bool helper method of the receiver, followed one level
 			if !fc.inHelper {
@@ -493,6 +690,11 @@ func (x *c16x) helper(bt, name, kind string) string {
 	var stmts []string
 	for _, s := range fd.Body.List {
 		switch t := s.(type) {
+		case *ast.AssignStmt:
+			// v, err := <decoder>(S): no statement of its own; v and err stand for the decoding of S below
+			if !assignsNamed(t) && x.decodeDef(fc, t) {
+				continue
+			}
 		case *ast.IfStmt:
 			if t.Init == nil && t.Else == nil && len(t.Body.List) == 1 {
 				if r, ok := t.Body.List[0].(*ast.ReturnStmt); ok && len(r.Results) == 1 {
@@ -787,6 +989,17 @@ func (x *c16x) body(fc *c16fn) []string {
 				out = append(out, ".rejectIf "+par(x.bexpr(fc, t.Cond)))
 				continue
 			}
+			// if err != nil { return nil, err } after a recognised decoding
+			if t.Init == nil && t.Else == nil {
+				if be, ok := t.Cond.(*ast.BinaryExpr); ok && be.Op == token.NEQ && isNil(be.Y) {
+					if id, ok := be.X.(*ast.Ident); ok {
+						if _, dec := fc.errOf[id.Name]; dec && returnsErr(t.Body, id.Name) {
+							out = append(out, ".rejectIf "+par(x.bexpr(fc, t.Cond)))
+							continue
+						}
+					}
+				}
+			}
 			// if err := recv.helper(args); err != nil { return nil, err }
 			if as, ok := t.Init.(*ast.AssignStmt); ok && t.Else == nil && as.Tok == token.DEFINE && len(as.Lhs) == 1 && len(as.Rhs) == 1 {
 				if ev, ok := as.Lhs[0].(*ast.Ident); ok && c.src(t.Cond) == ev.Name+" != nil" && returnsErr(t.Body, ev.Name) {
@@ -825,6 +1038,32 @@ func (x *c16x) body(fc *c16fn) []string {
 				if call, ok := t.Rhs[0].(*ast.CallExpr); ok && c.src(call.Fun) == "sdk.UnwrapSDKContext" {
 					out = append(out, ".nop "+leanStr(oneLine(c.src(s), 80)))
 					continue
+				}
+			}
+			// authority, err := sdk.AccAddressFromBech32(req.Authority): decoding a request / keeper value touches no state
+			if x.decodeDef(fc, t) {
+				out = append(out, ".nop "+leanStr(oneLine(c.src(s), 80)))
+				continue
+			}
+			// v := recv.GetGovernanceAccount(ctx).GetAddress().String(): the module account as the x/auth state has it
+			if t.Tok == token.DEFINE && len(t.Lhs) == 1 && len(t.Rhs) == 1 {
+				if c1, ok := t.Rhs[0].(*ast.CallExpr); ok && len(c1.Args) == 0 {
+					if s1, ok := c1.Fun.(*ast.SelectorExpr); ok && s1.Sel.Name == "String" {
+						if c2, ok := s1.X.(*ast.CallExpr); ok && len(c2.Args) == 0 {
+							if s2, ok := c2.Fun.(*ast.SelectorExpr); ok && s2.Sel.Name == "GetAddress" {
+								if name := x.moduleAccountFetch(fc, s2.X, 0); name != "" {
+									if id, ok := t.Lhs[0].(*ast.Ident); ok {
+										if fc.slocals == nil {
+											fc.slocals = map[string]string{}
+										}
+										fc.slocals[id.Name] = ".moduleAccInState " + leanStr(name)
+										out = append(out, ".ensureModuleAcc "+leanStr(name)+" "+leanStr(oneLine(c.src(s), 80)))
+										continue
+									}
+								}
+							}
+						}
+					}
 				}
 			}
 		case *ast.ReturnStmt:
